@@ -28,6 +28,7 @@ import tempfile
 
 from lib import import_impl, outcome, is_error, Sym
 import fam_c02
+from fam_streams import fast_batch
 
 META = dict(
     technique='Coq theorems about executable family models (T1 characterisation, T2 existence/bijection, T3 Tseitin and '
@@ -157,6 +158,8 @@ def impl_formula(fam, p):
     from cnfgen.formula.cnf import CNF
     from cnfgen.formula.opb import OPB
     a = outcome(lambda: fam['build'](p, CNF))
+    if p.get('only_cnf') and a[0] == 'ok':       # a large instance compared under class CNF only
+        return ('ok', a[1].number_of_variables(), [list(c) for c in a[1]], a[1].number_of_variables(), None)
     b = outcome(lambda: fam['build'](p, OPB))
     if a[0] == 'exc' or b[0] == 'exc':
         e = a if a[0] == 'exc' else b
@@ -180,8 +183,10 @@ def agrees(impl, rep):
     nv, cl, opb = rep
     if impl[1] != nv or impl[3] != nv:
         return False, 'number of variables: implementation %d (CNF) / %d (OPB), model %d' % (impl[1], impl[3], nv)
-    if canon(impl[2]) != canon(cl):
+    if impl[2] != cl and canon(impl[2]) != canon(cl):
         return False, 'clause sets differ'
+    if impl[4] is None:
+        return True, ('exact' if impl[2] == cl else 'order')
     mo = opb_py(opb)
     if impl[4] != mo:
         if canon_opb(impl[4]) != canon_opb(mo):
@@ -205,7 +210,7 @@ def property_fails(fam, p, impl, deep=True):
             tab = cnf_table(n, clauses) if n > 0 else (1 if all(len(c) > 0 for c in clauses) else 0)
         except Exception as e:   # literal outside 1..n etc.
             return dict(malformed=repr(e))
-        if deep and n <= 12:
+        if deep and n <= 12 and impl[4] is not None:
             otab = opb_models(n, impl[4])
             if otab != tab:
                 idx = (otab ^ tab).bit_length() - 1
@@ -259,6 +264,35 @@ def tally(ctx, fam, p):
             ctx.tally(name + ' ' + k, v if v <= 6 else '>6')
         elif isinstance(v, bool):
             ctx.tally(name + ' ' + k, v)
+    st = p.get('stream')
+    if st in ('thresholds', 'shapes', 'history'):
+        ctx.tally('stream ' + st, name)
+        for k, v in sorted(p.get('raw', {}).items()):
+            ctx.tally('shapes: flag passed as', repr(v))
+        if p.get('same_object'):
+            ctx.tally('shapes: one Graph object for both arguments', name)
+        if 'ops' in p:
+            ctx.tally('history: generator calls on the same object', sum(1 for o in p['ops'] if o[0] == 'gen'))
+            for o in p['ops']:
+                if o[0] != 'gen':
+                    ctx.tally('history: ops', o[0])
+        if st == 'thresholds':
+            bucket = lambda x: x if x <= 17 else '18-62' if x < 63 else x if x <= 65 else '66-126' if x < 127 else x if x <= 129 else \
+                '130-254' if x < 255 else x if x <= 258 else '259-999' if x < 1000 else '>=1000'
+            for g in gs:
+                deg = {}
+                for u, v in g['edges']:
+                    deg[u] = deg.get(u, 0) + 1
+                    deg[v] = deg.get(v, 0) + 1
+                ctx.tally('thresholds: %s vertices' % name, bucket(g['n']))
+                ctx.tally('thresholds: %s largest degree' % name, bucket(max(list(deg.values()) or [0])))
+                ctx.tally('thresholds: %s isolated vertices' % name, 'yes' if len(deg) < g['n'] else 'no')
+            for k in ('k', 'd', 's'):
+                if isinstance(p.get(k), int):
+                    ctx.tally('thresholds: %s %s' % (name, k), bucket(p[k]) if p[k] >= 0 else p[k])
+        if name == 'tseitin' and p['charges'] is not None and st == 'shapes':
+            for c in p['charges']:
+                ctx.tally('shapes: tseitin charge passed as', repr(c))
     if name == 'tseitin':
         ch = p['charges']
         ctx.tally('tseitin charges', 'None' if ch is None else ('len=n' if len(ch) == p['G']['n'] else ('shorter' if len(ch) < p['G']['n'] else 'longer')))
@@ -283,20 +317,27 @@ def check_graph_views(ctx, seen, g):
 def run(ctx):
     import_impl()
     quick = ctx.tier == 'quick'
+    ctx.assumptions += [
+        'streams thresholds/shapes/history (notes/LARGE_STREAMS.md): a flag passed as a truthy/falsy non-bool is compared with the model on '
+        'bool(flag); Tseitin charges are compared with the model on bool(charge); a graph with a history (public API calls, the same object '
+        'handed to the generator several times with edits in between) is compared with the model on the edge set the harness computed by '
+        'itself (fam_streams.simulate); instances marked only_cnf are compared under class CNF only',
+        'driver commands of the C02 families render the CNF through to_cnf_f (coq/FamFastFacts.v: to_cnf_f l = to_cnf l)']
     seen_graphs = {}
     deferred = []   # known-class reports: (has_failing_input, args for ctx.violation)
     order_notes = {}
     for fam in fam_c02.FAMILIES:
         name = fam['name']
         site = fam['site']
-        ps = fam['params'](ctx.rng, ctx.tier)
+        # the corpus of large / rare / history cases first, then the exhaustive small and random ones
+        ps = (fam['streams'](ctx.rng, ctx.tier) if fam.get('streams') else []) + fam['params'](ctx.rng, ctx.tier)
         reqs = [fam['request'](p) for p in ps]
         spec_idx = {}
         if fam.get('request_spec'):
             for i, p in enumerate(ps):
                 spec_idx[i] = len(reqs)
                 reqs.append(fam['request_spec'](p))
-        replies = ctx.model.batch(reqs, timeout=1500)
+        replies = fast_batch(reqs, timeout=1500)      # lib.Model.batch with a faster reader for replies of several MB
         deep_budget = 250 if quick else 1500
         nsmall = sum(1 for p in ps if p.get('stream') == 'small')
         deep_prob = min(1.0, deep_budget / max(1, nsmall))
@@ -330,9 +371,10 @@ def run(ctx):
             if not ok:
                 ctx.disagreements_checked += 1
                 if impl[0] == 'exc' and not (isinstance(rep, list) and rep and rep[0] == 'raises'):
+                    rcls = (fam['raise_class'](p, impl[1]) if fam.get('raise_class') else None) or 'raises-' + impl[1]
                     ctx.violation('counterexample', '%s raised %s on a valid input' % (site, impl[1]),
                                   dict(input=dict(family=name, params=p), implementation=list(impl[1:3]), model='returns a formula'),
-                                  True, site=site, cls='raises-' + impl[1])
+                                  True, site=site, cls=rcls)
                     continue
                 why = property_fails(fam, p, impl)
                 rp = dict(input=dict(family=name, params=p), difference=detail,
@@ -346,8 +388,8 @@ def run(ctx):
                     ctx.violation('correspondence', '%s differs from its model (%s)' % (site, detail), rp, False, site=site, cls='shape')
                 continue
             # ---- semantic tests on small instances (tests, not theorems) ----
-            if impl[0] == 'ok' and p.get('stream') == 'small' and impl[1] <= TEST_ENUM:
-                deep = impl[1] <= DECODE_ENUM and ctx.rng.random() < deep_prob
+            if impl[0] == 'ok' and p.get('stream') in ('small', 'shapes', 'history') and impl[1] <= TEST_ENUM:
+                deep = impl[1] <= DECODE_ENUM and (p['stream'] != 'small' or ctx.rng.random() < deep_prob)
                 ctx.count(name + ('/semantic-deep' if deep else '/semantic'), None, False)
                 why = property_fails(fam, p, impl, deep=deep)
                 if why is not None:
